@@ -27,7 +27,7 @@ import warnings
 
 from traits.api import (
     HasTraits, MetaHasTraits, TraitType, TraitError, Trait, Int, Str, Any, List, Dict, Set,
-    Tuple, Union, Either, Instance, Supports, AdaptsTo, Property, Interface, provides, cached_property,
+    Tuple, Union, Either, Instance, Supports, AdaptsTo, Property, PrototypedFrom, DelegatesTo, Interface, provides, cached_property,
     push_exception_handler, pop_exception_handler,
 )
 from traits.adaptation.api import (
@@ -64,7 +64,9 @@ META = {
              "notify=False) / trait_set), a second object linked by sync_trait(mutual=True) on a "
              "scalar and a List trait with operations on either side; strata: 50% general, 20% "
              "property, 10% adaptation, 10% quiet-set, 10% sync, with listeners forced on the traits "
-             "concerned) x a random set of static / on_trait_change / observe handlers. "
+             "concerned; plus 10% deferred-traits stratum (PrototypedFrom / DelegatesTo over a prototype with "
+             "fault-pointed validators: assign via the deferring attribute, change the prototype, delete "
+             "the local value), general 40%) x a random set of static / on_trait_change / observe handlers. "
              "Per history the fault space is ENUMERATED: every operation j x every user-callback "
              "tick k <= n_j (learnt from a fault-free twin) x E in {TraitError, ValueError, "
              "AttributeError, RuntimeError}. distinct_nontrivial = distinct (operation kind, "
@@ -73,8 +75,10 @@ META = {
     "gates": {
         "quick": dict({"faults:" + k: 60 for k in _KINDS}, **{
             "histories": 200, "histories:property": 40, "histories:adapt": 20,
-            "histories:quiet": 20, "histories:sync": 20,
-            "faults_injected": 15000, "precommit_judged": 9000,
+            "histories:quiet": 20, "histories:sync": 20, "histories:deferred": 20,
+            "faults:deferred-assignment": 200,
+            "prototype_sets_after_failed_deferred_assignment": 250,
+            "faults_injected": 15000, "precommit_judged": 8000,
             "postcommit_judged": 5000, "followup_ops_compared": 60000,
             "postcommit_getter_faults": 300, "postcommit_getter_faults:dp": 200,
             "postcommit_getter_faults:cp": 200,
@@ -92,7 +96,9 @@ META = {
             "nested_followup_ops_compared": 1800}),
         "thorough": dict({"faults:" + k: 1000 for k in _KINDS}, **{
             "histories": 3000, "histories:property": 600, "histories:adapt": 300,
-            "histories:quiet": 300, "histories:sync": 300,
+            "histories:quiet": 300, "histories:sync": 300, "histories:deferred": 300,
+            "faults:deferred-assignment": 3000,
+            "prototype_sets_after_failed_deferred_assignment": 3800,
             "faults_injected": 250000, "precommit_judged": 140000,
             "postcommit_judged": 80000, "followup_ops_compared": 1000000,
             "postcommit_getter_faults": 5000, "postcommit_getter_faults:dp": 3000,
@@ -168,6 +174,7 @@ class FP:
         self.subj = []
         self.post = []
         self.nat = set()
+        self.why = {}
         self.probe = None
         self.raised = None
 
@@ -181,6 +188,7 @@ class FP:
         self.subj = []
         self.post = []
         self.nat = set()
+        self.why = {}
         self.probe = probe
         self.raised = None
 
@@ -371,6 +379,13 @@ MAIN_TRAITS = {
     # shadow attributes written by Supports/AdaptsTo.post_setattr (plain __dict__ entries)
     "sup_": ("shadow", "None"), "supd_": ("shadow", "None"), "ada_": ("shadow", "None"),
 }
+# deferred traits (only declared in the deferred stratum's classes): a local value of a
+# PrototypedFrom trait lives in __dict__ and shadows the prototype; absent = follows it
+MAIN_TRAITS.update({"proto": ("instance", "None"), "px": ("deferred", "<follows the prototype>"),
+                    "py": ("deferred", "<follows the prototype>"),
+                    "dx": ("deferred", "<follows the prototype>")})
+DEFERRED = ("px", "py", "dx")
+PROTO_TRAITS = {"x": ("scalar", "0"), "y": ("scalar", "0"), "tag": ("scalar", "None")}
 ADAPT_DEFAULT_MODE = ("supd", "insd", "ada")
 PROPS = ("p", "cp", "dp", "dn")
 EXTRA_CENSUS = PROPS + ("lst_items", "lu_items", "lazy_items", "dct_items", "st_items", "trait_added")
@@ -472,6 +487,17 @@ def make_classes(env, cfg):
     if cfg["child_static"]:
         cns["_v_changed"] = static("v")
     Child = MetaHasTraits("Child", (HasTraits,), cns)
+    Proto = None
+    if cfg.get("deferred"):
+        pns = {
+            "x": VT(env, "validator-traittype"),
+            "y": Trait(0, vfun),
+            "tag": Any(),
+            "__repr__": lambda self: "Proto#%s" % (self.__dict__.get("tag"),),
+        }
+        if cfg["child_static"]:
+            pns["_x_changed"] = static("proto-x")
+        Proto = MetaHasTraits("Proto", (HasTraits,), pns)
 
     ns = {
         "i": Int(0),
@@ -511,6 +537,11 @@ def make_classes(env, cfg):
         "_get_dn": _get_dn,
         "__repr__": lambda self: self.__dict__.get("_vf_name", "W"),
     }
+    if Proto is not None:
+        ns["proto"] = Instance(Proto)
+        ns["px"] = PrototypedFrom("proto", "x")
+        ns["py"] = PrototypedFrom("proto", "y")
+        ns["dx"] = DelegatesTo("proto", "x")
     for nm in cfg["static"]:
         ns["_%s_changed" % nm] = static(nm)
     if cfg["anytrait"]:
@@ -544,7 +575,7 @@ def make_classes(env, cfg):
     am.register_factory(f2, Mid, IFoo)
     am.register_factory(g1, Src, Alt)
     am.register_factory(g2, Alt, IFoo)
-    return W, Child, am
+    return W, Child, am, Proto
 
 
 def cache_stale(ws):
@@ -573,7 +604,7 @@ def newly_stale(r_stale, *refs):
 class Graph:
     """One object graph, rebuilt from scratch for every replay."""
 
-    def __init__(self, env, W, Child, cfg):
+    def __init__(self, env, W, Child, cfg, Proto=None):
         env.reset()
         self.env = env
         self.Child = Child
@@ -581,6 +612,11 @@ class Graph:
         self.pool = [("W", self.main, MAIN_TRAITS)]
         self.ws = [self.main]
         self.b = None
+        self.Proto = Proto
+        if Proto is not None:
+            p0 = Proto(tag=0)
+            self.pool.append(("Proto#0", p0, PROTO_TRAITS))
+            self.main.proto = p0
         if cfg.get("sync"):
             # a second object of the same class, mutually synchronised on some traits
             self.b = W()
@@ -655,6 +691,10 @@ class Graph:
                 return Src(tag=d[2], cond=True)
             if kind == "foo":
                 return Foo(tag=d[2])
+            if kind == "proto":
+                c = self.Proto(tag=d[2])
+                self.pool.append(("Proto#%s" % d[2], c, PROTO_TRAITS))
+                return c
             if kind == "child":
                 c = self.Child(tag=d[2])
                 self.pool.append(("Child#%s" % d[2], c, CHILD_TRAITS))
@@ -689,6 +729,15 @@ class Graph:
             return None
         if k == "get":
             return enc(getattr(a, op[1]))
+        if k == "proto-set":
+            c = a.proto
+            if c is None:
+                return "noproto"
+            setattr(c, op[1], op[2])
+            return None
+        if k == "del":
+            delattr(a, op[1])
+            return None
         if k == "child-set":
             c = a.child
             if c is None:
@@ -842,7 +891,8 @@ def diff_values(a, b, same_graph_ids=None):
             continue
         if x is None or y is None:
             present = y if x is None else x
-            spec = MAIN_TRAITS if k[0].startswith("W") else CHILD_TRAITS
+            spec = (MAIN_TRAITS if k[0].startswith("W") else PROTO_TRAITS if k[0].startswith("Proto")
+                    else CHILD_TRAITS)
             if present[0] == spec[k[1]][1]:
                 continue          # the declared default, merely materialised
         out.append(k)
@@ -867,6 +917,10 @@ def op_kind(op):
         return "partner:" + op_kind(op[1])
     if k == "multi":
         return "multi-" + op[1]
+    if k == "proto-set":
+        return "prototype-set"
+    if k == "del":
+        return "del-deferred"
     if k == "set":
         if op[1] in PROPS:
             return "assign-property"
@@ -890,7 +944,7 @@ def gen_config(rng):
         "otc": pick(OTC_CANDS, 1, 8),
         "obs": pick(OBS_CANDS, 1, 8),
         "obj_otc": rng.random() < 0.12,
-        "sync": [], "sync_first": rng.random() < 0.5, "b_otc": [], "b_obs": [],
+        "sync": [], "sync_first": rng.random() < 0.5, "b_otc": [], "b_obs": [], "deferred": False,
     }
 
 
@@ -1106,6 +1160,23 @@ def gen_sync_stratum_op(rng, idx, synced):
     return ("on-b", op) if rng.random() < 0.5 else op
 
 
+def gen_deferred_stratum_op(rng, idx):
+    """PrototypedFrom / DelegatesTo attributes: assign through the deferring attribute (the
+    prototype trait's validator decides), change the prototype, delete the local value."""
+    c = rng.randrange(20)
+    if c < 6:
+        return ("set", rng.choice(["px", "px", "py", "dx"]), rng.choice([_int(rng), _int(rng), _int(rng), "x"]))
+    if c < 12:
+        return ("proto-set", rng.choice(["x", "x", "y"]), rng.choice([_int(rng), _int(rng), _int(rng), "x"]))
+    if c < 14:
+        return ("del", rng.choice(["px", "px", "py", "dx"]))
+    if c < 16:
+        return ("get", rng.choice(DEFERRED))
+    if c < 17:
+        return ("set", "proto", ("@", "proto", idx))
+    return gen_op(rng, idx)
+
+
 def watched(cfg):
     """Attributes whose change reaches at least one user handler."""
     if cfg["anytrait"] or cfg["obj_otc"]:
@@ -1152,6 +1223,19 @@ def gen_history(rng, stratum="general"):
         while len(ops) < n:
             ops.append(gen_prop_op(rng, len(ops)))
         return cfg, ops
+    if stratum == "deferred":
+        cfg["deferred"] = True
+        _force(rng, cfg, ["px"], ("static",))
+        _force(rng, cfg, ["px"], ("otc",))
+        _force(rng, cfg, ["px"], ("obs",))
+        _force(rng, cfg, ["py", "dx"])
+        if rng.random() < 0.5:
+            cfg["otc"] = sorted(cfg["otc"] + ["proto.x"])
+        if rng.random() < 0.5:
+            cfg["obs"] = sorted(cfg["obs"] + [rng.choice(["proto.x", "proto:y", "proto"])])
+        while len(ops) < n:
+            ops.append(gen_deferred_stratum_op(rng, len(ops)))
+        return cfg, ops
     if stratum == "quiet":
         _force(rng, cfg, rng.sample(MULTI_NAMES, 5))
         while len(ops) < n:
@@ -1186,7 +1270,7 @@ def gen_history(rng, stratum="general"):
 
 def stratum_of(h):
     r = (h // 16) % 10          # independent of the shard (h % 16): every shard sees every stratum
-    return {3: "property", 7: "property", 5: "adapt", 1: "quiet", 9: "sync"}.get(r, "general")
+    return {3: "property", 7: "property", 5: "adapt", 1: "quiet", 9: "sync", 0: "deferred"}.get(r, "general")
 
 
 # ---------------------------------------------------------------------------
@@ -1232,12 +1316,13 @@ class Trace:
     the user-callback ticks of that op (self.nticks)."""
 
     def __init__(self, env, classes, cfg, ops, replace=None, learn=False, count_at=None):
-        W, Child, am = classes
-        g = Graph(env, W, Child, cfg)
+        W, Child, am, Proto = classes
+        g = Graph(env, W, Child, cfg, Proto)
         self.pre = []         # snapshot before op m
         self.res = []         # Res after op m (None for a skipped op)
         self.post_flags = []  # per op: list of bools (tick is post-commit)
         self.nat = []
+        self.why = []         # per op: {tick: what the commit detector saw}
         self.nticks = None
         cur = g.snap()
         for m, op in enumerate(ops):
@@ -1248,6 +1333,7 @@ class Trace:
                     self.res.append(None)
                     self.post_flags.append([])
                     self.nat.append(set())
+                    self.why.append({})
                     continue
             if learn:
                 env.fp.learn(make_probe(env, g, cur[0], cur[1]))
@@ -1259,6 +1345,7 @@ class Trace:
             self.res.append(r)
             self.post_flags.append(roles_of(env.fp.post, r.kinds) if learn else [])
             self.nat.append(set(env.fp.nat) if learn else set())
+            self.why.append(dict(env.fp.why) if learn else {})
             cur = (r.vals, r.cen, r.ids)
 
 
@@ -1273,10 +1360,17 @@ def make_probe(env, g, pv, pc):
     def probe():
         # inside the dispatch of a static / on_trait_change notifier (traits' documented change
         # event tracers): the notification phase has begun even if nothing changed visibly
+        fp = env.fp
         if env.depth or len(env.log) != l0 or len(env.chan) != c0:
+            fp.why[fp.n] = "a notification is being / has been delivered"
             return True
         v, c, _ = g.snap()
-        return bool(diff_values(pv, v)) or bool(diff_census(pc, c))
+        dv, dc = diff_values(pv, v), diff_census(pc, c)
+        if dv or dc:
+            fp.why[fp.n] = "visible change: values %r, notifier census %r" % (
+                [(k, pv.get(k), v.get(k)) for k in dv[:3]], [(k, pc.get(k), c.get(k)) for k in dc[:3]])
+            return True
+        return False
     return probe
 
 
@@ -1288,8 +1382,8 @@ def roles_of(post, kinds):
 
 
 def replay_prefix(env, classes, cfg, ops, j):
-    W, Child, am = classes
-    g = Graph(env, W, Child, cfg)
+    W, Child, am, Proto = classes
+    g = Graph(env, W, Child, cfg, Proto)
     for op in ops[:j]:
         try:
             g.do(op)
@@ -1538,6 +1632,11 @@ class History:
                     ctx.ev()
                     ctx.count("faults_injected")
                     ctx.count("faults:" + kind)
+                    if op[0] == "set" and op[1] in DEFERRED and not post:
+                        ctx.count("faults:deferred-assignment")
+                        # later changes of the prototype, which must still be forwarded
+                        ctx.count("prototype_sets_after_failed_deferred_assignment",
+                                  sum(1 for o in ops[j + 1:] if o[0] == "proto-set"))
                     if quiet_op:
                         ctx.count("faults:in-quiet-set")
                     if sub > 1:
@@ -1558,6 +1657,8 @@ class History:
                     info = dict(op_index=j, op=repr(op), tick=k, callback=kind,
                                 role="post-commit" if post else "pre-commit", exc=E.__name__,
                                 ticks_of_op=kinds, roles=["post" if x else "pre" for x in roles])
+                    if post and twin.why[j].get(k):
+                        info["commit_evidence"] = twin.why[j][k]
                     if not post:
                         # ---------------- pre-commit: the callback decides ----------
                         ctx.count("precommit_judged")
@@ -1631,8 +1732,9 @@ class History:
                             ctx.violation("post-commit/%s/exception-reached-caller" % kind,
                                           "%s raised in a post-commit %s callback (tick %d of %r): caller saw %r "
                                           "(fault-free outcome %r) [a callback that decides the outcome ran "
-                                          "after the operation's effect was already visible]"
-                                          % (E.__name__, kind, k, op, r.exc or r.out, tr.out), self.witness(**info))
+                                          "after the operation's effect was already visible: %s]"
+                                          % (E.__name__, kind, k, op, r.exc or r.out, tr.out,
+                                             info.get("commit_evidence", "?")), self.witness(**info))
                             return True
                         if newly_stale(r.stale, pre_stale, tr.stale):
                             ctx.violation("post-commit/%s/cache-stale" % kind,
